@@ -4,9 +4,9 @@ import LogosModel.Callback
 /-!
 # The public `Lexer` API as a state machine over a pool of lexers (src/lexer.rs), C14
 
-Two token types `A` and `B` over the same `str` source; a pool of lexers, all descended from one
-initial lexer by `clone` and `morph`.  `Lexer` = `(token type, token_start, token_end, extras)`;
-`is_prefix` and the source are shared by construction (`clone` and `morph` copy them).
+Two token types `A` and `B` over the same `str` source; a pool of lexers made by `Lexer::with_extras` /
+`partial_with_extras` (`fresh`), `clone`, `clone_from` and `morph`.
+`Lexer` = `(token type, token_start, token_end, extras, is_prefix)`; the source is shared.
 -/
 namespace Logos
 
@@ -15,6 +15,8 @@ structure LexSt where
   start : Nat
   stop : Nat
   extras : Nat
+  /-- `is_prefix`: the lexer was made by `new_partial` / `partial_with_extras` -/
+  pfx : Bool := false
 deriving Repr, DecidableEq
 
 structure ApiEnv where
@@ -33,6 +35,8 @@ inductive ApiOp where
   | bump (i n : Nat)
   | clone (i : Nat)
   | morph (i : Nat)
+  | fresh (pfx : Bool)   -- `Lexer::<A>::with_extras(src, 7)` / `partial_with_extras(src, 7)`, appended to the pool
+  | cloneFrom (i j : Nat)    -- `pool[i].clone_from(&pool[j])` (when they have the same token type)
 deriving Repr, DecidableEq
 
 /-- what a call returned, for printing -/
@@ -42,6 +46,8 @@ inductive ApiOut where
   | bumped (ok : Bool)
   | cloned
   | morphed
+  | made
+  | clonedFrom
   | noLexer
 deriving Repr, DecidableEq
 
@@ -52,7 +58,7 @@ def ApiEnv.isB (env : ApiEnv) : Nat → Bool := if env.utf8 then isBoundary env.
 
 /-- `Iterator::next`: `token_start = token_end; Token::lex(self)` -/
 def lexerNext (env : ApiEnv) (st : LexSt) : LexSt × NextRes :=
-  let r := nextLoop (walkAttempt (env.graph st.ty) env.isPrefix env.src) (env.cb st.ty) env.utf8 env.src
+  let r := nextLoop (walkAttempt (env.graph st.ty) st.pfx env.src) (env.cb st.ty) env.utf8 env.src
     (env.src.length + 2) st.stop
   match r with
   | .item it => ({ st with start := it.start, stop := it.stop }, r)
@@ -69,7 +75,7 @@ def setAt (pool : List LexSt) (i : Nat) (st : LexSt) : List LexSt := pool.set i 
 /-- one API call; indices are taken modulo the pool size as the harness does -/
 def apiStep (env : ApiEnv) (pool : List LexSt) (op : ApiOp) : List LexSt × Nat × ApiOut :=
   if pool.isEmpty then (pool, 0, .noLexer) else
-  let pick (i : Nat) : Nat × LexSt := (i % pool.length, pool.getD (i % pool.length) ⟨0, 0, 0, 0⟩)
+  let pick (i : Nat) : Nat × LexSt := (i % pool.length, pool.getD (i % pool.length) ⟨0, 0, 0, 0, false⟩)
   match op with
   | .next i =>
     let (j, st) := pick i
@@ -90,6 +96,11 @@ def apiStep (env : ApiEnv) (pool : List LexSt) (op : ApiOp) : List LexSt × Nat 
   | .morph i =>
     let (j, st) := pick i
     (setAt pool j { st with ty := if st.ty = 0 then 1 else 0 }, j, .morphed)
+  | .fresh p => (pool ++ [⟨0, 0, 0, 7, p⟩], pool.length, .made)
+  | .cloneFrom i j =>
+    let (ji, si) := pick i
+    let (_, sj) := pick j
+    if si.ty = sj.ty then (setAt pool ji sj, ji, .clonedFrom) else (pool, ji, .clonedFrom)
 
 def apiRun (env : ApiEnv) (pool : List LexSt) : List ApiOp → List LexSt
   | [] => pool
